@@ -144,6 +144,8 @@ pub struct NetInner {
     pub ledger: HashMap<(SocketAddr, SocketAddr), Ledger>,
     /// server-side amplification check: worst (sent, 3*rcvd) excess seen while unvalidated
     pub amp_violation: Option<(u64, u64, u64)>,
+    /// sends while unvalidated that left less than one full datagram of budget
+    pub amp_blocked_sends: u64,
     pub server_validated_at: Option<u64>,
     pump_waker: Option<Waker>,
     pub delivered: [u64; 2],
@@ -181,6 +183,7 @@ impl SimNet {
                 fired: BTreeMap::new(),
                 ledger: HashMap::new(),
                 amp_violation: None,
+                amp_blocked_sends: 0,
                 server_validated_at: None,
                 pump_waker: None,
                 delivered: [0; 2],
@@ -241,6 +244,9 @@ impl SimNet {
         led.sent += data.len() as u64;
         if src == self.server_addr && inner.server_validated_at.is_none() {
             let (s, r) = (led.sent, led.rcvd);
+            if s + 1200 > 3 * r {
+                inner.amp_blocked_sends += 1;
+            }
             if s > 3 * r {
                 let worse = inner.amp_violation.is_none_or(|(ps, pr, _)| s - 3 * r > ps - 3 * pr);
                 if worse {
@@ -308,7 +314,11 @@ impl SimNet {
                 Self::bump(inner, "fault.flip_sweep");
                 let mut t = base;
                 let step = Duration::from_micros(10);
+                let (lo, hi) = (std::env::var("NETSIM_SWEEP_FROM").ok().and_then(|s| s.parse().ok()).unwrap_or(0usize), std::env::var("NETSIM_SWEEP_TO").ok().and_then(|s| s.parse().ok()).unwrap_or(usize::MAX));
                 for p in 0..data.len() * 8 {
+                    if p < lo || p >= hi {
+                        continue;
+                    }
                     let mut d = data.to_vec();
                     d[p / 8] ^= 1 << (p % 8);
                     self.enqueue(inner, t, src, dst, d);
@@ -316,6 +326,9 @@ impl SimNet {
                     t += step;
                 }
                 for l in 0..data.len() {
+                    if std::env::var("NETSIM_SWEEP_NOTRUNC").is_ok() {
+                        break;
+                    }
                     self.enqueue(inner, t, src, dst, data[..l].to_vec());
                     inner.tampered_delivered += 1;
                     t += step;
